@@ -34,6 +34,7 @@ func main() {
 	repo := flag.String("repo", "/repo", "repository root")
 	out := flag.String("out", "", "output directory")
 	sched := flag.Bool("sched", false, "also instrument synchronisation for the cooperative scheduler")
+	traceCache := flag.Bool("tracecache", false, "ONLY: wrap the public operations of pkg/cache with trace logging (for the repository's own tests)")
 	flag.Parse()
 	if *out == "" {
 		fmt.Fprintln(os.Stderr, "vinstr: -out required")
@@ -44,6 +45,13 @@ func main() {
 	}
 	replace := map[string]string{}
 	n := 0
+	if *traceCache {
+		if err := traceCacheOverlay(*repo, *out, replace); err != nil {
+			fail(err)
+		}
+		writeOverlay(*out, replace, 2)
+		return
+	}
 	for _, d := range clockDirs {
 		dir := filepath.Join(*repo, d)
 		ents, err := os.ReadDir(dir)
@@ -86,8 +94,12 @@ func main() {
 		}
 		replace[filepath.Join(dir, "zz_verif_export.go")] = dst
 	}
+	writeOverlay(*out, replace, n)
+}
+
+func writeOverlay(out string, replace map[string]string, n int) {
 	ov, _ := json.MarshalIndent(map[string]interface{}{"Replace": replace}, "", " ")
-	p := filepath.Join(*out, "overlay.json")
+	p := filepath.Join(out, "overlay.json")
 	if err := os.WriteFile(p, ov, 0o644); err != nil {
 		fail(err)
 	}
